@@ -154,6 +154,29 @@ int cmdResave(int argc, char** argv) {
 					if (!rotated) break;
 					measure(nif, def != 0, caseOf(k), "rotated-partition-triangles", out);
 				}
+				// positions and UVs given through the API with values that the storage formats (half floats, bytes) cannot hold
+				// exactly: saving must convert what it writes, not what the model holds
+				for (int def = 0; def < 2; def++) {
+					NifFile nif;
+					if (loadFromString(nif, bytes) != 0) return;
+					bool any = false;
+					for (auto sh : nif.GetShapes()) {
+						uint16_t nvv = sh->GetNumVertices();
+						if (nvv == 0 || nvv > 20000) continue;
+						std::vector<Vector3> vv;
+						if (!nif.GetVertsForShape(sh, vv) || vv.size() != nvv) continue;
+						for (size_t q = 0; q < vv.size(); q++) vv[q] = Vector3(vv[q].x + 0.0137f, vv[q].y - 0.0213f, vv[q].z + 0.0319f);
+						nif.SetVertsForShape(sh, vv);
+						std::vector<Vector2> uu;
+						if (nif.GetUvsForShape(sh, uu) && uu.size() == nvv) {
+							for (size_t q = 0; q < uu.size(); q++) uu[q] = Vector2(0.1f * float(q % 10) + 0.0131f, 0.3f + 0.0077f * float(q % 7));
+							nif.SetUvsForShape(sh, uu);
+						}
+						any = true;
+					}
+					if (!any) break;
+					measure(nif, def != 0, caseOf(k), "inexact-values", out);
+				}
 				// the skin of the first skinned shape gets a skeleton root of its own (a node added last, so that a sorting save
 				// moves it)
 				for (int def = 0; def < 2; def++) {
